@@ -36,7 +36,7 @@ fn meta() -> Meta {
     Meta {
         id: "C16",
         level: "exploration",
-        rule: "(N) basename {app, absent, empty} x discriminant {absent, d, empty} x start time on/off x suffix {log, absent} x naming (6 schemes + no rotation), history W W T W R W; (P) 10 path shapes x {no rotation, Numbers}; (L) every history up to depth 4 (quick) / 5 (thorough) over {W20, W5, R, T, Restart(append), Restart(no append)} x naming x cleanup {Never, KeepLogFiles(1), KeepCompressedFiles(1), KeepLogAndCompressedFiles(1,1)} with all 16 selector combinations queried after every operation; (S) every history up to depth 5 / 6 over {W20, W5, R, Restart(append), Restart(no append), remove-link-target-and-restart} x naming (also with a start time in the name) x {Direct, buffered} with a symlink; distinct_nontrivial = distinct (sub-check, configuration, history) cases with at least two files in the directory",
+        rule: "(N) basename {app, absent, empty} x discriminant {absent, d, empty, v1.2} x start time on/off x suffix {log, absent, log.txt} x naming (6 schemes + no rotation) x {no cleanup, every rotated file compressed}, history W W T W R W; (P) 10 path shapes x {no rotation, Numbers}; (L) every history up to depth 4 (quick) / 5 (thorough) over {W20, W5, R, T, Restart(append), Restart(no append)} x naming x cleanup {Never, KeepLogFiles(1), KeepCompressedFiles(1), KeepLogAndCompressedFiles(1,1)} with all 16 selector combinations queried after every operation; (S) every history up to depth 5 / 6 over {W20, W5, R, Restart(append), Restart(no append), remove-link-target-and-restart} x naming (also with a start time in the name) x {Direct, buffered} with a symlink; distinct_nontrivial = distinct (sub-check, configuration, history) cases with at least two files in the directory",
         assumptions: vec![
             "grammar of file names and family membership written from the FileSpec / Naming documentation (family.rs)".into(),
             "selector semantics: plain = rotated files with the configured suffix (direct namings: including the current file), r_current = file with infix rCURRENT, compressed = .gz files, custom_current(s) = file with infix s".into(),
@@ -55,26 +55,34 @@ struct NCase {
     starttime: bool,
     suffix: Option<&'static str>,
     naming: Option<NamingK>,
+    /// every rotated file is compressed by the cleanup (names: the same plus .gz)
+    gz: bool,
 }
 
 fn ncases() -> Vec<NCase> {
     let mut v = Vec::new();
     for basename in [Some("app"), None, Some("")] {
-        for discr in [None, Some("d"), Some("")] {
+        for discr in [None, Some("d"), Some(""), Some("v1.2")] {
             for starttime in [false, true] {
-                for suffix in [Some("log"), None] {
+                for suffix in [Some("log"), None, Some("log.txt")] {
                     for naming in NG.iter().map(|n| Some(*n)).chain([None]) {
                         // degenerate: no name part at all
                         if naming.is_none() && basename.map_or(true, str::is_empty) && discr.map_or(true, str::is_empty) && !starttime {
                             continue;
                         }
-                        v.push(NCase {
-                            basename,
-                            discr,
-                            starttime,
-                            suffix,
-                            naming,
-                        });
+                        for gz in [false, true] {
+                            if gz && naming.is_none() {
+                                continue;
+                            }
+                            v.push(NCase {
+                                basename,
+                                discr,
+                                starttime,
+                                suffix,
+                                naming,
+                                gz,
+                            });
+                        }
                     }
                 }
             }
@@ -93,7 +101,7 @@ fn check_names(c: &NCase) -> Result<usize, (String, String)> {
     };
     let mut cfg = match c.naming {
         None => Cfg::norot(),
-        Some(n) => Cfg::rot(CritK::Size(LIMIT), n, CleanK::Never),
+        Some(n) => Cfg::rot(CritK::Size(LIMIT), n, if c.gz { CleanK::Gz(100) } else { CleanK::Never }),
     };
     cfg.parts = parts.clone();
     let start = env.clock.peek().format("%Y-%m-%d_%H-%M-%S").to_string();
@@ -434,7 +442,7 @@ fn isolated<T: Send + 'static>(f: impl FnOnce() -> Result<T, (String, String)> +
 
 fn parts_vector(c: &NCase) -> String {
     format!(
-        "basename:{}/discriminant:{}/starttime:{}/suffix:{}/{}",
+        "basename:{}/discriminant:{}/starttime:{}/suffix:{}/{}{}",
         match c.basename {
             None => "absent",
             Some("") => "empty",
@@ -443,11 +451,17 @@ fn parts_vector(c: &NCase) -> String {
         match c.discr {
             None => "absent",
             Some("") => "empty",
+            Some(d) if d.contains('.') => "dotted",
             _ => "present",
         },
         c.starttime,
-        if c.suffix.is_some() { "present" } else { "absent" },
-        c.naming.map_or("no-rotation", NamingK::short)
+        match c.suffix {
+            None => "absent",
+            Some(s) if s.contains('.') => "dotted",
+            _ => "present",
+        },
+        c.naming.map_or("no-rotation", NamingK::short),
+        if c.gz { "/compressed" } else { "" }
     )
 }
 
